@@ -24,6 +24,12 @@ Clauses(t) ==
                                           (t.off[k] \in DOMAIN PsFun(t) /\ Len(PsFun(t)[t.off[k]]) > 0
                                            /\ Len(StripIllegal(PsFun(t)[t.off[k]])) <= MaxLen)
                                              => IsPrefix2(StripIllegal(PsFun(t)[t.off[k]]), t.on[k])>>,
+     \* without supplied names the final name starts with the name derived from the code points (uniXXXX / uXXXXX, suffixes
+     \* and ligature parts kept, the compact uniXXXXYYYY form for BMP-only ligatures); a ".N" may follow to make it unique
+     <<"derived-from-code-points", "P", (t.expectRename /\ ~t.usePs) => \A k \in 1..Len(t.off) :
+                                          t.off[k] \in DOMAIN GlyphFun(t) =>
+                                             LET b == ValidName(t.off[k], BuildName(GlyphFun(t), PsFun(t), FALSE, t.off[k]))
+                                             IN Len(b) > 0 => IsPrefix2(b, t.on[k])>>,
      \* (an all-illegal supplied name yields an empty glyph name, which the font reader replaces by glyphNNNNN: skipped)
      <<"model-rename",            "M", t.expectRename =>
                                           LET m == Rename(t.off, GlyphFun(t), PsFun(t), t.usePs)
